@@ -447,3 +447,53 @@ Example duplicated_entry_applied_twice :
   map dreply (fst (apply_cmds exec_step [(B "p1", 7%Z)] empty_db [(0, 0, RNil); (0, 0, RNil)]%Z (cmds_of w_dup_log)))
   = [RInt 1; RInt 2].
 Proof. repeat split; vm_compute; reflexivity. Qed.
+
+(* ------------------------------------------------------------------ replies are routed by (origin node, id) *)
+Lemma apply_cmds_did (step : db -> env -> list bytes -> reply * db) cb : forall cs d envs j dl,
+    nth_error (fst (apply_cmds step cb d envs cs)) j = Some dl ->
+    exists cj, nth_error cs j = Some cj /\ did dl = fst cj.
+Proof.
+  induction cs as [|c0 r IH]; intros d envs j dl H.
+  - destruct envs; destruct j; discriminate.
+  - destruct envs as [|e0 er]; [destruct j; discriminate|].
+    cbn [apply_cmds] in H. unfold apply_cmd in H.
+    destruct (step d e0 (snd c0)) as [rp d1].
+    destruct (apply_cmds step cb d1 er r) as [dls d2] eqn:E2.
+    destruct j as [|j]; cbn in H.
+    + inversion H; subst. exists c0. split; reflexivity.
+    + specialize (IH d1 er j dl). rewrite E2 in IH. cbn in IH. destruct (IH H) as (cj & Hc & Hd).
+      exists cj. split; assumption.
+Qed.
+
+(* One log, many nodes.  [cb] is the callback table of ONE node (the origin of the proposal named
+   [id]); [cs] are the commands of the shared log, proposed on any node.  With ids that are unique in
+   the whole log -- across nodes, not only per node -- the connection registered under [id] is
+   answered by its own entry and by no other: an entry proposed elsewhere carries another id. *)
+Theorem reply_routed_by_origin (step : db -> env -> list bytes -> reply * db) cb cs d envs i id args e c :
+  NoDup (map fst cs) -> NoDup (map fst cb) -> In (id, c) cb ->
+  List.length envs = List.length cs ->
+  nth_error cs i = Some (id, args) -> nth_error envs i = Some e ->
+  nth_error (fst (apply_cmds step cb d envs cs)) i =
+    Some (mkDel (Some c) id (fst (step (state_at step d envs cs i) e args))) /\
+  (forall j dl, j <> i -> nth_error (fst (apply_cmds step cb d envs cs)) j = Some dl -> did dl <> id).
+Proof.
+  intros Hlog Hcb Hin HL Hi He. split.
+  - exact (own_reply step cb cs d envs i id args e c Hcb Hin HL Hi He).
+  - intros j dl Hne Hj Hid.
+    destruct (apply_cmds_did step cb cs d envs j dl Hj) as (cj & Hcj & Hd).
+    assert (Ei : nth_error (map fst cs) i = Some id) by (rewrite nth_error_map, Hi; reflexivity).
+    assert (Ej : nth_error (map fst cs) j = Some id) by (rewrite nth_error_map, Hcj; cbn; congruence).
+    apply Hne. symmetry.
+    apply (proj1 (NoDup_nth_error (map fst cs)) Hlog i j).
+    + apply nth_error_Some. rewrite Ei. discriminate.
+    + congruence.
+Qed.
+
+(* without global uniqueness: two nodes number their proposals 1, 2, ...; node A's waiter for its
+   "1" is handed the result of node B's "1" that precedes it in the log *)
+Example per_node_counter_misroutes :
+  let cs := [(B "1", [B "PING"]); (B "1", [B "INCR"; B "n"])] in     (* B's entry, then A's *)
+  let cbA := [(B "1", 7%Z)] in                                        (* A's connection 7 sent INCR n *)
+  map (fun dl => (dconn dl, dreply dl)) (fst (apply_cmds exec_step cbA empty_db [(0, 0, RNil); (0, 0, RNil)]%Z cs))
+  = [(Some 7%Z, RSimple (B "PONG")); (Some 7%Z, RInt 1)].
+Proof. vm_compute. reflexivity. Qed.
